@@ -43,7 +43,7 @@ ASSUMPTIONS = ['IEEE rounding is not modelled: values compared within 1e-9 relat
                'the public API: the SED.flux / SED.error setters validate the physical type, so such a file cannot be '
                'written with SED.write; only the target-side refusal is exercised (C15_refuse covers both in the model)']
 EXHAUSTIVE = {'quick': True, 'thorough': True}   # all 5 x 5 unit pairs are enumerated in both tiers
-N = {'quick': 330, 'thorough': 8000}
+N = {'quick': 330, 'thorough': 24000}
 DIST_UNITS = ['kpc', 'pc', 'cm', 'lyr']
 
 
